@@ -12,6 +12,7 @@ import (
 	"sort"
 	"strconv"
 	"strings"
+	"time"
 
 	"perkeep.org/pkg/blob"
 	"perkeep.org/pkg/schema"
@@ -38,9 +39,10 @@ type universe struct {
 	order []int
 	dels  [][2]int // (deleter, target), in arrival order
 	next  int
+	now   int // the clock, in seconds; starts at 1000
 }
 
-func newUniverse() *universe { return &universe{blobs: map[int]*sblob{}} }
+func newUniverse() *universe { return &universe{blobs: map[int]*sblob{}, now: 1000} }
 
 func (u *universe) add(b *sblob) *sblob {
 	b.id = u.next
@@ -101,7 +103,7 @@ func (u *universe) validChain(chain []int) (valid, transitive bool) {
 	if sh == nil || sh.kind != "share" || u.deleted(sh.id) {
 		return false, false
 	}
-	if sh.exp >= 0 && sh.exp < 1000 {
+	if sh.exp >= 0 && sh.exp < u.now {
 		return false, false
 	}
 	if len(chain) == 1 {
@@ -182,11 +184,57 @@ type gen struct {
 	r *hk.Run
 	w *world
 	u *universe
+	// the history a replay needs: every state-changing op of the case in order, and the first served
+	// requests through each share between two state changes (a handler may remember what it served)
+	hist     []histOp
+	histCase int
+	servedBy map[int]int // share -> served requests noted since the last state change
+}
+
+type histOp struct {
+	line  string
+	first int // -1: a state op; else the share the served request went through
+}
+
+func isStateOp(line string) bool {
+	return strings.HasPrefix(line, "blob ") || strings.HasPrefix(line, "del ") || strings.HasPrefix(line, "rm ") || strings.HasPrefix(line, "now ")
+}
+
+func (g *gen) note(line string, first int) {
+	if g.histCase != g.r.Res.Cases {
+		g.hist, g.histCase, g.servedBy = nil, g.r.Res.Cases, map[int]int{}
+	}
+	if first < 0 {
+		g.servedBy = map[int]int{}
+	} else {
+		if g.servedBy[first] >= 2 {
+			return
+		}
+		g.servedBy[first]++
+	}
+	g.hist = append(g.hist, histOp{line, first})
+}
+
+// replayFor: the state ops of the case and what was served through the share `first` so far
+func (g *gen) replayFor(first int) []string {
+	if g.histCase != g.r.Res.Cases {
+		return nil
+	}
+	var ops []string
+	for _, h := range g.hist {
+		if h.first < 0 || h.first == first {
+			ops = append(ops, h.line)
+		}
+	}
+	return ops
 }
 
 func (g *gen) op(line string) string {
 	out := hk.Guard(func() string { return g.w.exec(strings.Fields(line)) })
 	g.r.Op(line, out)
+	if isStateOp(line) {
+		g.note(line, -1)
+	}
 	return out
 }
 
@@ -242,7 +290,10 @@ func (g *gen) request(method string, asm bool, chain []int) {
 	if len(chain) > 2 && res.code != "shareFetchFailed" && res.code != "shareBlobInvalid" && res.code != "shareReadFailed" {
 		r.Hit("mech:link-check-reached")
 	}
-	replay := func() []string { return append(g.storeOps(), line) }
+	replay := func() []string { return append(g.replayFor(chain[0]), line) }
+	if res.status == 200 {
+		g.note(line, chain[0])
+	}
 	if !asm {
 		want200 := isGet && valid && last != nil
 		switch {
@@ -283,7 +334,7 @@ func (g *gen) request(method string, asm bool, chain []int) {
 func (g *gen) storeOps() []string {
 	var ops []string
 	for _, l := range g.r.CaseOps() {
-		if strings.HasPrefix(l, "blob ") || strings.HasPrefix(l, "del ") {
+		if isStateOp(l) {
 			ops = append(ops, l)
 		}
 	}
@@ -461,7 +512,7 @@ func (g *gen) buildStore(flavour int) (shares []int) {
 		other = g.put(&sblob{kind: "other", refs: []int{pick(r, []int{secret, file, dir})}}).id
 	}
 
-	exps := []int{-1, 500, 1500}
+	exps := []int{-1, 100, 90000} // never, 15 minutes ago, in 25 hours
 	targets := []int{dir, dir, file, top}
 	if other >= 0 {
 		targets = append(targets, other)
@@ -470,7 +521,7 @@ func (g *gen) buildStore(flavour int) (shares []int) {
 	for i := 0; i < nShares; i++ {
 		sh := &sblob{kind: "share", target: pick(r, targets), trans: r.Chance(65), exp: exps[r.Intn(3)]}
 		if i == 0 { // always one live transitive share of the directory
-			sh.target, sh.trans, sh.exp = dir, true, pick(r, []int{-1, 1500})
+			sh.target, sh.trans, sh.exp = dir, true, pick(r, []int{-1, 90000})
 		}
 		switch r.Intn(12) {
 		case 0:
@@ -605,6 +656,212 @@ func (g *gen) shareCase(n int, maxLen int) {
 		g.del(t)
 		reenumerate("target-share-deleted")
 	}
+	// (5) blobs disappear from the storage between two requests: a share that is still live (its
+	// claim must exist: nothing it gave access to may be served any more), then a via blob of a walk
+	g.removals(shares)
+}
+
+// rm removes a stored blob from the storage (model: the store forgets it; oracle: it does not exist)
+func (g *gen) rm(id int) {
+	if out := g.op(fmt.Sprintf("rm %d", id)); out != "ok" {
+		g.r.Fail("harness-store-failed", "rm -> "+out, "ok", out, g.r.CaseOps())
+	}
+	delete(g.u.blobs, id)
+	g.r.Hit("mech:blob-removed-from-storage")
+}
+
+func (g *gen) removals(shares []int) {
+	var live []int
+	for _, s := range shares {
+		if ok, _ := g.u.validChain([]int{s}); ok {
+			live = append(live, s)
+		}
+	}
+	if len(live) == 0 {
+		// every share of this store is dead by now: add a fresh transitive one
+		if t := g.u.blobs[shares[0]].target; t >= 0 {
+			s := g.put(&sblob{kind: "share", target: t, trans: true, exp: -1}).id
+			shares = append(shares, s)
+			live = append(live, s)
+		}
+	}
+	for i, s := range live {
+		if i > 1 {
+			break
+		}
+		// used once more right before it disappears
+		g.walks([]int{s}, 8, func(c []int) { g.request("GET", false, c) })
+		g.request("GET", false, []int{s})
+		if i == 0 {
+			// first a blob in the middle of its walks
+			var mid int = -1
+			g.walks([]int{s}, 4, func(c []int) {
+				if len(c) >= 3 && g.u.blobs[c[len(c)-2]] != nil && g.u.blobs[c[len(c)-2]].kind != "share" {
+					mid = c[len(c)-2]
+				}
+			})
+			if mid >= 0 {
+				g.rm(mid)
+				g.r.Hit("removed:via-blob")
+				g.enumerateFrom(shares)
+			}
+		}
+		g.rm(s)
+		g.r.Hit("removed:live-share-claim")
+		g.enumerateFrom(shares)
+	}
+}
+
+// enumerateFrom: every chain up to 4 that starts at one of the shares, over everything that was
+// ever stored; plus every chain up to 2
+func (g *gen) enumerateFrom(shares []int) {
+	all := g.alphabet()
+	for _, s := range shares {
+		g.enumerate(all, 2, func(c []int) { g.request("GET", false, append([]int{s}, c...)) })
+		g.request("GET", false, []int{s})
+		g.request("GET", true, []int{s})
+	}
+	g.enumerate(all, 2, func(c []int) { g.request("GET", false, c) })
+}
+
+// expiryCase: shares whose expiry lies two seconds ahead are used – the claim, the target, every
+// descendant – and then used again, on the same handler, after the clock has passed their expiry.
+// The requests "before" are only recorded if they all completed before the wall clock reached the
+// expiry; on a machine too slow for that the case is retried.
+func (g *gen) expiryCase(n int) {
+	r := g.r
+	for attempt := 0; attempt < 4; attempt++ {
+		w := newWorld()
+		if w.err != "" {
+			r.Fail("harness-setup-failed", w.err, "", "", nil)
+			return
+		}
+		g.w, g.u = w, newUniverse()
+		// stage the ops of the store and of the first round without recording them yet
+		var staged []stagedOp
+		stage := func(line string) string {
+			out := hk.Guard(func() string { return w.exec(strings.Fields(line)) })
+			staged = append(staged, stagedOp{line, out})
+			return out
+		}
+		put := func(b *sblob) int {
+			g.u.add(b)
+			stage(b.op())
+			return b.id
+		}
+		put(&sblob{kind: "raw"})
+		leaf := put(&sblob{kind: "raw"})
+		leaf2 := put(&sblob{kind: "raw"})
+		by := put(&sblob{kind: "bytes", refs: []int{leaf2}})
+		file := put(&sblob{kind: "file", refs: []int{leaf, by}})
+		set := put(&sblob{kind: "set", refs: []int{file, leaf2}})
+		dir := put(&sblob{kind: "dir", entries: set})
+		soon := 1002
+		var shares []int
+		shares = append(shares, put(&sblob{kind: "share", target: dir, trans: true, exp: soon}))
+		shares = append(shares, put(&sblob{kind: "share", target: file, trans: n%2 == 0, exp: soon + n%2}))
+		shares = append(shares, put(&sblob{kind: "share", target: dir, trans: true, exp: 90000})) // control: stays live
+		shares = append(shares, put(&sblob{kind: "share", target: file, trans: true, exp: 100}))  // control: long expired
+		var chains [][]int
+		g.walks(shares, 8, func(c []int) { chains = append(chains, c) })
+		for _, s := range shares {
+			chains = append(chains, []int{s})
+		}
+		g.enumerate(g.alphabet(), 2, func(c []int) { chains = append(chains, append([]int(nil), c...)) })
+		lineOf := func(m string, asm bool, c []int) string {
+			return fmt.Sprintf("get %s %s %s %s", m, b01(asm), ids(c[len(c)-1:]), ids(c[:len(c)-1]))
+		}
+		for _, c := range chains {
+			stage(lineOf("GET", false, c))
+		}
+		for _, s := range shares {
+			stage(lineOf("GET", true, []int{s, g.u.blobs[s].target}))
+			stage(lineOf("HEAD", false, []int{s}))
+		}
+		if !time.Now().Before(w.realTime(soon).Add(-300 * time.Millisecond)) {
+			r.Hit("expiry-case-retried-too-slow")
+			continue
+		}
+		r.Case(fmt.Sprintf("share-expiry flavour=%d", n))
+		for _, s := range staged {
+			r.Op(s.line, s.out)
+			if isStateOp(s.line) {
+				g.note(s.line, -1)
+			} else if ws := strings.Fields(s.line); len(ws) == 5 && strings.HasSuffix(s.out, " 200") {
+				if c := stagedChain(ws); len(c) > 0 {
+					g.note(s.line, c[0])
+				}
+			}
+		}
+		// the oracle on the first round: everything the soon-to-expire shares give is served now
+		served := 0
+		for _, s := range staged {
+			if strings.HasPrefix(s.line, "get GET 0 ") && strings.HasSuffix(s.out, " 200") {
+				served++
+			}
+		}
+		g.judgeStaged(staged)
+		r.Hit("mech:share-used-before-expiry")
+		// time passes: one second after the (later) expiry
+		for _, t := range []int{soon + 1, soon + 2} {
+			if out := g.op(fmt.Sprintf("now %d", t)); out != "ok" {
+				r.Fail("harness-clock-failed", "now -> "+out, "ok", out, r.CaseOps())
+			}
+			g.u.now = t
+			r.Hit(fmt.Sprintf("mech:clock-passed-expiry:+%ds", t-soon))
+			for _, c := range chains {
+				g.request("GET", false, c)
+			}
+			for _, s := range shares {
+				g.request("GET", true, []int{s, g.u.blobs[s].target})
+				g.request("HEAD", false, []int{s})
+			}
+		}
+		r.Hit(fmt.Sprintf("expiry-case:served-before=%v", served > 0))
+		return
+	}
+	r.Note("expiry case skipped: the machine was too slow to use the shares before their expiry in 4 attempts")
+}
+
+// judgeStaged applies the oracle to requests that were executed before they were recorded
+type stagedOp struct{ line, out string }
+
+// the chain of a staged `get <M> <asm> <path> <via>` line (ids only)
+func stagedChain(ws []string) []int {
+	var chain []int
+	if ws[4] != "-" {
+		v, _ := parseIDs(ws[4])
+		chain = append(chain, v...)
+	}
+	p, _ := parseNat(ws[3])
+	return append(chain, p)
+}
+
+func (g *gen) judgeStaged(staged []stagedOp) {
+	for _, s := range staged {
+		ws := strings.Fields(s.line)
+		if len(ws) != 5 || ws[0] != "get" {
+			continue
+		}
+		chain := stagedChain(ws)
+		p := chain[len(chain)-1]
+		valid, trans := g.u.validChain(chain)
+		asm := ws[2] == "1"
+		is200 := strings.HasSuffix(s.out, " 200")
+		g.r.Hit("code:" + strings.Fields(s.out)[0])
+		replay := append(g.storeOps(), s.line)
+		if !asm {
+			want := valid && g.u.blobs[p] != nil
+			if is200 && !want {
+				g.r.Fail("served-without-valid-chain", fmt.Sprintf("%s chain %s answered %s", ws[1], ids(chain), s.out), "refused", s.out, replay)
+			}
+			if want && !is200 {
+				g.r.Fail("valid-chain-refused", fmt.Sprintf("%s chain %s is valid but answered %s", ws[1], ids(chain), s.out), "200", s.out, replay)
+			}
+		} else if valid && trans && !strings.HasPrefix(s.out, "noError") {
+			g.r.Fail("valid-transitive-chain-assemble-refused", fmt.Sprintf("chain %s assemble=1 -> %s", ids(chain), s.out), "noError", s.out, replay)
+		}
+	}
 }
 
 // delState: per share, the liveness of its delete claims in age order, e.g. "LU" = the older one
@@ -685,13 +942,31 @@ var shareSubs = []string{"", "%R", "%S", "%R?via=%S", "%R?via=%S&assemble=1", "%
 var credSubs = []string{"", "%R", "enumerate-blobs", "stat", "camli/enumerate-blobs"}
 
 func (g *gen) access(s *srvWorld, prefix string, pi prefixInfo, creds string, method, sub string) (int, string, string) {
-	line := accessLine(s.spec, prefix, pi, creds, method, sub)
+	return g.accessOp("access", s, prefix, pi, creds, method, sub)
+}
+
+func (g *gen) accessOp(opName string, s *srvWorld, prefix string, pi prefixInfo, creds string, method, sub string) (int, string, string) {
+	line := opName + accessLine(s.spec, prefix, pi, creds, method, sub)[len("access"):]
+	if unsafeRequest(pi.htype, method, sub) {
+		// if this request is let through, perkeep re-executes the process: leave a note for the new image
+		os.Setenv(dangerEnv, strings.Join(append(g.recentOps(6), line), "\n"))
+		defer os.Unsetenv(dangerEnv)
+	}
 	out := g.op(line)
 	rec := g.w.lastRec
 	if rec == nil {
 		return 0, "", out
 	}
 	return rec.Code, rec.Body.String(), out
+}
+
+// the last n op lines of the case (what led to the current request)
+func (g *gen) recentOps(n int) []string {
+	ops := g.r.CaseOps()
+	if len(ops) > n {
+		ops = ops[len(ops)-n:]
+	}
+	return ops
 }
 
 func accessLine(spec, prefix string, pi prefixInfo, creds, method, sub string) string {
@@ -798,9 +1073,24 @@ func (g *gen) serverCase(spec string) {
 			continue // do not send unauthenticated writes to it
 		}
 		subs := subsFor(pi)
+		guarded := !isSelfGuarded(pi.htype)
+		refused := func(code int) bool { return code == http.StatusUnauthorized || code == http.StatusForbidden }
 		for _, sub := range subs {
+			getCode := 0
 			for _, m := range allMethods {
+				if guarded && m != "GET" && m != "HEAD" && !refused(getCode) {
+					// the GET of this very request was let through (reported): no unauthenticated writes,
+					// restarts, … are sent after it
+					r.Hit("skipped-unsafe-after-open-get")
+					continue
+				}
+				if restartedProcess && unsafeRequest(pi.htype, m, sub) {
+					continue
+				}
 				code, body, out := g.access(s, p, pi, "0", m, sub)
+				if m == "GET" {
+					getCode = code
+				}
 				r.Distinct(fmt.Sprintf("%s|%s|%s|%s", spec, p, m, sub))
 				g.judge(s, p, pi, "0", m, sub, code, body, out)
 			}
@@ -809,11 +1099,22 @@ func (g *gen) serverCase(spec string) {
 		// shape x every method on the first two sub-paths
 		for _, c := range shapes {
 			for i, sub := range subs {
+				getCode := 0
 				for _, m := range allMethods {
 					if m != "GET" && i > 1 {
 						continue
 					}
+					if guarded && m != "GET" && m != "HEAD" && !refused(getCode) {
+						r.Hit("skipped-unsafe-after-open-get")
+						continue
+					}
+					if restartedProcess && unsafeRequest(pi.htype, m, sub) {
+						continue
+					}
 					code, body, out := g.access(s, p, pi, c, m, sub)
+					if m == "GET" {
+						getCode = code
+					}
 					r.Distinct(fmt.Sprintf("%s|%s|%s|%s|%s", spec, p, m, sub, c))
 					r.Hit("shape:" + c)
 					g.judge(s, p, pi, c, m, sub, code, body, out)
@@ -834,7 +1135,11 @@ func (g *gen) serverCase(spec string) {
 				}
 			}
 		}
+		// a credentialed request and, right after it, from the same address (the same keep-alive
+		// connection), one without credentials: what the first one was granted must not carry over
+		g.afterAuth(s, p, pi)
 	}
+	g.afterAuthFixed(s)
 	for _, p := range append(s.fixedPaths(), "/debug/nothing-here") {
 		line := fmt.Sprintf("fixed %s %s", p, spec)
 		out := g.op(line)
@@ -859,6 +1164,65 @@ func (g *gen) serverCase(spec string) {
 				if rec.Code != http.StatusUnauthorized && rec.Code != http.StatusForbidden {
 					r.Fail("unauthenticated-fixed-endpoint-served:"+p, fmt.Sprintf("%s %s (%s) without credentials -> %d", m, p, c, rec.Code), "401", fmt.Sprint(rec.Code), []string{line})
 				}
+			}
+		}
+	}
+}
+
+var afterAuthCreds = []string{"0", "s-ws", "s-basic-wrongpass", "s-token-empty", "s-loopback-claim"}
+
+func (g *gen) afterAuth(s *srvWorld, p string, pi prefixInfo) {
+	r := g.r
+	if pi.htype == "root" && !pi.internal {
+		for _, c := range afterAuthCreds {
+			line := fmt.Sprintf("discovery %s %s %s after-auth", p, c, s.spec)
+			out := g.op(line)
+			r.Hit("after-auth:discovery")
+			r.Distinct("after-auth|" + line)
+			if out != "401" {
+				r.Fail("unauthenticated-discovery-served-after-authenticated-one-from-same-address",
+					fmt.Sprintf("discovery with valid credentials (%d), then from the same address with %s -> %s", g.w.lastAuthCode, c, out), "401", out, []string{line})
+			}
+		}
+		return
+	}
+	if isSelfGuarded(pi.htype) {
+		return
+	}
+	subs := subsFor(pi)
+	if len(subs) > 8 {
+		subs = subs[:8]
+	}
+	for _, c := range afterAuthCreds {
+		for _, sub := range subs {
+			code, body, out := g.accessOp("after-auth", s, p, pi, c, "GET", sub)
+			line := "after-auth" + accessLine(s.spec, p, pi, c, "GET", sub)[len("access"):]
+			r.Hit("after-auth:" + c)
+			r.Distinct("after-auth|" + line)
+			if g.w.lastAuthCode != http.StatusUnauthorized {
+				r.Hit("mech:after-auth-first-step-accepted")
+			}
+			if code != http.StatusUnauthorized && code != http.StatusForbidden {
+				r.Fail("unauthenticated-request-served-after-authenticated-one-from-same-address:"+pi.htype,
+					fmt.Sprintf("GET %s%s with valid credentials (-> %d), then the same GET from the same address without credentials (%s) -> %d (%s)",
+						p, sub, g.w.lastAuthCode, c, code, out), "401", fmt.Sprint(code), []string{line})
+			}
+			if strings.Contains(body, secretMarker) {
+				r.Fail("secret-blob-leaked-after-authenticated-request:"+pi.htype, line, "no blob bytes", fmt.Sprint(code), []string{line})
+			}
+		}
+	}
+}
+
+func (g *gen) afterAuthFixed(s *srvWorld) {
+	for _, p := range s.fixedPaths() {
+		for _, c := range afterAuthCreds {
+			line := fmt.Sprintf("fixed %s %s %s after-auth", p, s.spec, c)
+			out := g.op(line)
+			g.r.Hit("after-auth:fixed")
+			if out != "auth" {
+				g.r.Fail("unauthenticated-fixed-endpoint-served-after-authenticated-one-from-same-address:"+p,
+					fmt.Sprintf("GET %s with valid credentials (-> %d), then from the same address with %s -> %d", p, g.w.lastAuthCode, c, g.w.lastRec.Code), "401", out, []string{line})
 			}
 		}
 	}
@@ -920,6 +1284,24 @@ func (g *gen) freshProcessCase(spec string) {
 			items = append(items, item{accessLine(spec, p, pi, "0", "GET", ""), pi.htype, "access", "0"})
 		}
 	}
+	// … and, last, the interleaving with credentialed requests in that process
+	for _, c := range afterAuthCreds {
+		for _, p := range s.sortedPrefixes() {
+			pi := s.prefixes[p]
+			if isSelfGuarded(pi.htype) {
+				if pi.htype == "root" && !pi.internal {
+					items = append(items, item{fmt.Sprintf("discovery %s %s %s after-auth", p, c, spec), "root", "discovery-after-auth", c})
+				}
+				continue
+			}
+			for _, sub := range subsFor(pi)[:2] {
+				items = append(items, item{"after-auth" + accessLine(spec, p, pi, c, "GET", sub)[len("access"):], pi.htype, "after-auth", c})
+			}
+		}
+		for _, p := range s.fixedPaths() {
+			items = append(items, item{fmt.Sprintf("fixed %s %s %s after-auth", p, spec, c), p, "fixed-after-auth", c})
+		}
+	}
 	s.close()
 	items = append(items, item{"srvclose", "", "close", ""})
 
@@ -970,6 +1352,21 @@ func (g *gen) freshProcessCase(spec string) {
 				r.Fail("unauthenticated-fixed-endpoint-served-in-fresh-process:"+it.cred+":"+it.htype,
 					fmt.Sprintf("in a freshly started process: %s -> %s", it.line, out), "auth", out, []string{it.line})
 			}
+		case "after-auth":
+			if out != "401" {
+				r.Fail("unauthenticated-request-served-after-authenticated-one-from-same-address:"+it.htype,
+					fmt.Sprintf("in a child process: %s -> %s", it.line, out), "401", out, []string{it.line})
+			}
+		case "fixed-after-auth":
+			if out != "auth" {
+				r.Fail("unauthenticated-fixed-endpoint-served-after-authenticated-one-from-same-address:"+it.htype,
+					fmt.Sprintf("in a child process: %s -> %s", it.line, out), "auth", out, []string{it.line})
+			}
+		case "discovery-after-auth":
+			if out != "401" {
+				r.Fail("unauthenticated-discovery-served-after-authenticated-one-from-same-address",
+					fmt.Sprintf("in a child process: %s -> %s", it.line, out), "401", out, []string{it.line})
+			}
 		case "discovery":
 			if out != "401" {
 				r.Fail("unauthenticated-discovery-served-in-fresh-process:"+it.cred,
@@ -1015,13 +1412,22 @@ func serverSpecs(r *hk.Run) []string {
 
 // Run is the generator.
 func Run(r *hk.Run) {
-	r.Res.Rule = "share handler: per generated store (public key, raw leaves, bytes, file, static sets incl. builder-made mergeSets, directory, a claim that mentions a ref, 2-3 share claims: transitive or not, live/expired/never expiring, of directories, files, sets, shares, phantoms, searches) EVERY chain of length 1..L over all stored blobs plus one unstored ref is requested with GET (L=4 quick, 5 thorough), every chain up to 3 with HEAD and assemble=1, every chain up to 2 with all 9 methods, malformed refs at every position, every link-following walk up to 8 and its one-element mutations; then histories of signed delete claims: one, two and three delete claims on one share, undone in either order (older only / newer only / both), undoers undone, a deleter with two undoers, a deleted target share; after every step all chains up to 2 over everything, all chains up to 3 from every share and all walks are re-requested. servers: serverinit.Load+InstallHandlers of generated high- and low-level configurations (storage x index x auth mode x share prefix x hand-edited prefixes incl. internal ones); every prefix x 9 methods x 9-22 sub-paths without credentials, then without credentials in 17 request shapes (websocket upgrade with absent/empty/wrong authtoken, blank/garbage/empty/wrong Basic, Token, Bearer Authorization, forwarded-for/loopback claims, cookies) x every sub-path (GET) and x every method (first sub-paths), discovery and every fixed /debug endpoint under every shape, GET/HEAD with valid credentials; the shapes are first sent to servers in freshly started child processes (no credential ever presented, auth.Token() never asked for). distinct = distinct (store, request) whose chain starts at a stored share claim, plus distinct (configuration, prefix, method, sub-path, shape)"
+	r.Res.Rule = "share handler: per generated store (public key, raw leaves, bytes, file, static sets incl. builder-made mergeSets, directory, a claim that mentions a ref, 2-3 share claims: transitive or not, live/expired/never expiring, of directories, files, sets, shares, phantoms, searches) EVERY chain of length 1..L over all stored blobs plus one unstored ref is requested with GET (L=4 quick, 5 thorough), every chain up to 3 with HEAD and assemble=1, every chain up to 2 with all 9 methods, malformed refs at every position, every link-following walk up to 8 and its one-element mutations; then histories of signed delete claims: one, two and three delete claims on one share, undone in either order (older only / newer only / both), undoers undone, a deleter with two undoers, a deleted target share; after every step all chains up to 2 over everything, all chains up to 3 from every share and all walks are re-requested; then blobs are REMOVED from the storage between requests (a via blob, then live share claims that were just used) and everything from the shares is re-requested. expiry cases (2 quick, 4 thorough): shares expiring 2-3 s ahead are used (claim, target, every descendant, assemble, all chains up to 2) and used again on the same handler after real time has passed their expiry (now op, real sleep), next to never-expiring and long-expired controls. servers: serverinit.Load+InstallHandlers of generated high- and low-level configurations (storage x index x auth mode x share prefix x hand-edited prefixes incl. internal ones); every prefix x 9 methods x 9-22 sub-paths without credentials, then without credentials in 17 request shapes (websocket upgrade with absent/empty/wrong authtoken, blank/garbage/empty/wrong Basic, Token, Bearer Authorization, forwarded-for/loopback claims, cookies) x every sub-path (GET) and x every method (first sub-paths), discovery and every fixed /debug endpoint under every shape, GET/HEAD with valid credentials; each guarded prefix, discovery and /debug endpoint is also requested without credentials (5 shapes) IMMEDIATELY AFTER a credentialed request from the same remote address (after-auth); the shapes are first sent to servers in freshly started child processes (no credential ever presented, auth.Token() never asked for; the after-auth interleaving follows there too). distinct = distinct (store, request) whose chain starts at a stored share claim, plus distinct (configuration, prefix, method, sub-path, shape)"
 	g := &gen{r: r}
+	if restartedProcess {
+		// perkeep re-executed this binary: a request that must be refused reached the status handler's
+		// restart. The run starts over; that request is not sent again.
+		ops := restartedOps
+		if len(ops) == 0 {
+			ops = []string{"(ops unknown)"}
+		}
+		r.Fail("unauthenticated-request-restarted-the-server", "a POST <status>/restart that must be refused was served: perkeep re-executed the process (osutil.RestartProcess); the ops that led to it are the replay", "401", "process re-executed", ops)
+	}
 
 	// the line protocol on junk
 	r.Case("malformed ops")
 	g.w = newWorld()
-	for _, l := range []string{"frob", "blob", "blob x - raw -", "blob 1 - weird -", "blob 1 - share 2 7 -", "get GET 2 1 -", "get BREW 0 1 -", "get GET 0 1", "del 1", "guard ui", "access ui 0", "fixed"} {
+	for _, l := range []string{"frob", "blob", "blob x - raw -", "blob 1 - weird -", "blob 1 - share 2 7 -", "get GET 2 1 -", "get BREW 0 1 -", "get GET 0 1", "del 1", "guard ui", "access ui 0", "fixed", "now", "now 999", "now 1011", "rm", "rm x", "after-auth ui 0", "discovery /"} {
 		g.op(l)
 	}
 
@@ -1031,6 +1437,13 @@ func Run(r *hk.Run) {
 	}
 	for n := 0; n < stores; n++ {
 		g.shareCase(n+int(r.Res.Seed)*stores, maxLen)
+	}
+	nExp := 2
+	if r.Thorough() {
+		nExp = 4
+	}
+	for n := 0; n < nExp; n++ {
+		g.expiryCase(n + int(r.Res.Seed))
 	}
 	g.probes()
 	specs := serverSpecs(r)
